@@ -269,7 +269,15 @@ func Package(path string, files []string) (*PkgInfo, error) {
 
 func getNamedImports(gocmd string, pkgs map[string]string) ([]*Import, error) {
 	var imports []*Import
-	for pkg, alias := range pkgs {
+	// iterate in sorted order, the unique names given to the imports (and so
+	// the generated mainfile) must not depend on map iteration order.
+	paths := make([]string, 0, len(pkgs))
+	for pkg := range pkgs {
+		paths = append(paths, pkg)
+	}
+	sort.Strings(paths)
+	for _, pkg := range paths {
+		alias := pkgs[pkg]
 		debug.Printf("getting import package %q, alias %q", pkg, alias)
 		imp, err := getImport(gocmd, pkg, alias)
 		if err != nil {
@@ -395,7 +403,13 @@ func setNamespaces(pi *PkgInfo) {
 func setImports(gocmd string, pi *PkgInfo) error {
 	importNames := map[string]string{}
 	rootImports := []string{}
-	for _, f := range pi.AstPkg.Files {
+	fileNames := make([]string, 0, len(pi.AstPkg.Files))
+	for name := range pi.AstPkg.Files {
+		fileNames = append(fileNames, name)
+	}
+	sort.Strings(fileNames)
+	for _, fileName := range fileNames {
+		f := pi.AstPkg.Files[fileName]
 		for _, d := range f.Decls {
 			gen, ok := d.(*ast.GenDecl)
 			if !ok || gen.Tok != token.IMPORT {
